@@ -128,6 +128,10 @@ def c02(tier, seed):
 
 # ---------------------------------------------------------------- split parity (C17)
 def c17(tier, seed):
+    return _c17(tier, seed) + [o for o in openmode_obs() if o.name in ('parity.open.readonly', 'parity.create.sizes')]
+
+
+def _c17(tier, seed):
     P = 'harness/h_parity.c'
     pf = lambda *f: [x + ' (cmdline/parity.c)' for x in f]
     return [
@@ -585,6 +589,8 @@ def openmode_obs():
             Ob('parity.open.readonly', O, 'h_parity_open', inject=[OPEN_NOATIME, ADVISE_FLAGS, CHECK_PARITY], unwind=10, small_path=True, timeout=900, mem=6, cost=6, replay=False,
                functions=['parity_open (cmdline/parity.c)', 'open_noatime (cmdline/unix.c, extracted mechanically)', 'advise_flags (cmdline/support.c, extracted mechanically)'],
                note='0..8 splits (SPLIT_MAX, fully unwound), every advise mode, every outcome / errno of each open, every recorded / real size'),
+            Ob('parity.create.sizes', O, 'h_parity_create', inject=[OPEN_NOATIME, ADVISE_FLAGS, CHECK_PARITY], unwind=10, small_path=True, timeout=900, mem=6, cost=6, replay=False,
+               functions=['parity_create (cmdline/parity.c)'], note='0..8 splits, every recorded / real size per split, every outcome of open / fstat / advise; no O_TRUNC / O_APPEND'),
             Ob('check.parity_open.region', O, 'h_check_parity', inject=[OPEN_NOATIME, ADVISE_FLAGS, CHECK_PARITY], unwind=8, small_path=True, timeout=900, mem=6, cost=5, replay=False,
                functions=['state_check: region "if (fix)" .. "abort if error are present" (cmdline/check.c, extracted mechanically)'],
                note='check / fix / audit-only, 1..6 parity levels, every skip / exclusion / open / create / resize outcome; parity_* and state_check_process by recording stub')]
@@ -644,7 +650,7 @@ def c19(tier, seed):
 
 
 def c09(tier, seed):
-    return stream_obs(['h_sgetb32', 'h_sgetb64', 'h_sgetble32', 'h_sgetbs']) + crc_obs(tier) + state_obs(tier) + crc_record_obs() + mapguard_obs()
+    return stream_obs(['h_sgetb32', 'h_sgetb64', 'h_sgetble32', 'h_sgetbs']) + crc_obs(tier) + state_obs(tier) + crc_record_obs() + mapguard_obs() + runguard_obs()
 
 
 NSEC_ENC = dict(region='nsec_enc', file='cmdline/state.c', begin='/* encode STAT_NSEC_INVALID as 0 */', end='sputb64(inode, f);', end_first_after=True, max_lines=8, expect_loops=0,
@@ -681,6 +687,22 @@ def _map_region(letter, scope):
 
 MAP_REGIONS = [_map_region('f', "\t\tif (c == 'f') {"), _map_region('h', "} else if (c == 'h') {"), _map_region('s', "} else if (c == 's') {"),
                _map_region('a', "} else if (c == 'a') {"), _map_region('r', "} else if (c == 'r') {")]
+
+
+RUN_I = dict(region='run_i', file='cmdline/state.c', scope="} else if (c == 'i') {", begin='ret = sgetb32(f, &v_count);', end='ret = sgetb32(f, &flag);', end_first_after=True,
+             max_lines=20, expect_loops=0, proto='static void region_run_i(STREAM *f, const char *path, uint32_t v_pos, uint32_t v_count, block_off_t blockmax, int ret)')
+RUN_H = dict(region='run_h', file='cmdline/state.c', scope="} else if (c == 'h') {", begin='ret = sgetb32(f, &v_count);', end='/* get the sub-command */', end_first_after=True,
+             max_lines=20, expect_loops=0, proto='static void region_run_h(STREAM *f, const char *path, uint32_t v_pos, uint32_t v_count, block_off_t blockmax, int ret)')
+RUN_F = dict(region='run_f', file='cmdline/state.c', scope="\t\tif (c == 'f') {", begin='ret = sgetb32(f, &v_count);', end='/* fill the blocks in the run */', end_first_after=True,
+             max_lines=30, expect_loops=0, proto='static void region_run_f(STREAM *f, const char *path, block_off_t v_pos, uint32_t v_count, uint32_t v_idx, block_off_t blockmax, struct snapraid_file *file, int ret)')
+RUN_REGIONS = [RUN_I, RUN_H, RUN_F]
+
+
+def runguard_obs():
+    return [Ob('state.%s_record.run_guard' % l, 'harness/h_staterec.c', 'h_run_%s' % l, inject=[NSEC_ENC, NSEC_DEC] + RUN_REGIONS, defs={'VERIF_RUN_REGIONS': None},
+               unwind=4, small_path=True, timeout=600, mem=6, cost=2,
+               functions=["state_read_content: region '%s' record, run-length guard (cmdline/state.c, extracted mechanically)" % l],
+               note='every 32-bit position, count and array / file size') for l in 'ihf']
 
 
 def mapguard_obs():
